@@ -167,7 +167,8 @@ impl ClientConnection {
             path,
             version.clone(),
             headers,
-            *self.remote_addr.as_ref().unwrap(),
+            // (the address of a peer that is already gone again cannot be asked for: `None`)
+            self.remote_addr.as_ref().ok().and_then(|a| *a),
             data_source,
             writer,
         )
